@@ -1,13 +1,12 @@
 SPECIFICATION SpecAll
 CONSTANTS
-  NumOrders = 4
-  PageUnits = 8
-  MaxPages = 4
-  Inits <- MInits
-  Sizes <- MSizes
+  NumOrders = 3
+  PageUnits = 4
+  MaxPages = 3
+  Inits <- NInits
   ModelData = TRUE
   AllocFailPoisons <- BothBool
-  FreeWeight = 0
+  TopFits <- BothBool
   InvalidWeight = 0
   Depth = 100000
 INVARIANTS TypeOK NoOverlap AboveBase InsideMem PagesBound DataIntact Structure
